@@ -285,6 +285,11 @@ def run(ck):
     # releasing a companion reaches the companion: watchpoints hold its number (shared with C14)
     from rules import C14
     C14.rule_companion_identity(ck)
+    # the original instruction at a breakpoint runs from its first byte: pc rewind after the trap, and the
+    # un-patch / single-step / re-patch discipline (shared with C01: executing from pc+1 computes something else)
+    from rules import C01
+    C01.rule_rewind(ck)
+    C01.rule_stepoff(ck)
     rule_temp_pairs(ck)
     rule_teardown(ck)
     rule_exit_siblings(ck)
